@@ -12,6 +12,17 @@ CHECKS = {
         note="Interleavings inside one source line / C-level races are not modelled; blocking primitives are cooperative replacements; bounds in evidence.",
         design_ref="DESIGN.md section 3 C18",
     ),
+    "C15": dict(
+        engine="T",
+        technique="stateless model checking of the real NameServer under a baton scheduler (all schedules up to a preemption bound) with a brute-force linearizability oracle",
+        text="Every interleaving (source-line granularity inside NameServer and MemoryStorage; storage-call granularity on the sqlite back-end) of 2-3 "
+             "client threads running 1-2 operations each out of safe/unsafe register, remove by name/prefix/regex, set_metadata, lookup, list, count on "
+             "shared names from three initial maps, up to the stated preemption bound; every complete call/return history and the final map must be "
+             "explained by some sequential order on a dict model; additionally exactly-one-safe-registration, removal counts summing to one and "
+             "absence of internal errors are reported as separate fingerprints.",
+        note="Line granularity; sqlite transactions are atomic steps (sqlite's own locking is trusted); operation alphabet and thread counts are bounded.",
+        design_ref="DESIGN.md section 3 C15",
+    ),
 }
 
 NOT_YET = {}
